@@ -72,6 +72,10 @@ func harnessOverlay(verifDir string, harnessDirs map[string]string) (map[string]
 	for _, f := range vfiles {
 		ov[filepath.Join(repoDir, "internal/vnd", filepath.Base(f))] = f
 	}
+	hfiles, _ := filepath.Glob(filepath.Join(verifDir, "harness/vh/*.go"))
+	for _, f := range hfiles {
+		ov[filepath.Join(repoDir, "internal/vh", filepath.Base(f))] = f
+	}
 	for rel, h := range harnessDirs {
 		hfiles, _ := filepath.Glob(filepath.Join(verifDir, "harness", h, "*.go"))
 		if len(hfiles) == 0 {
